@@ -35,19 +35,22 @@ ASSUMPTIONS = [
 
 ALLOPS = ["AddHeading", "SetStyle", "AddStyle", "ModifyStyle", "RemoveStyle", "GenerateTOC", "AutoGenerateTOC", "UpdateTOC",
           "TOCEntry", "ApplyTableStyle", "CreateCustomTableStyle", "AddListItem", "AddNote", "RemoveNote", "Save", "SaveFile",
-          "Reopen", "OpenForeign", "Markdown", "RenderTemplate", "AddParagraph", "AddHeader", "AddFooter", "AddTable"]
+          "Reopen", "OpenForeign", "Markdown", "RenderTemplate", "AddParagraph", "AddHeader", "AddFooter", "AddTable",
+          "Switch", "Look"]
 
 # argument classes
 SMALL = dict(Lv={2, 9}, Maxes={3}, StyIds={"Quote", "C1", "Zz9"}, AddIds={"C1"}, ModIds={"Heading2", "C1"}, RmIds={"Heading2", "C1"},
              Tpls={"TableGrid"}, TblIds={"ab", "TS1"}, ListTypes={"bullet", "number"}, Shapes={"lists", "toc"}, Kinds={"all"},
-             ViasC={"AddStyle"}, HowsC={"mutate", "replace"}, FreshC={True})
+             ViasC={"AddStyle"}, HowsC={"mutate", "replace"}, FreshC={True}, OnIds={"Normal", "Heading2"}, NoteKinds={"fn", "en"},
+             Looks={"styles"})
 WIDE = dict(Lv=set(range(1, 10)), Maxes={1, 3, 9}, StyIds={"Quote", "Title", "Heading2", "C1", "Q1", "F1", "TOC2", "Zz9"},
             AddIds={"C1", "Q1", "TS1"}, ModIds={"Heading1", "Quote", "13", "C1", "F1", "Normal"}, RmIds={"Heading1", "Heading2", "Quote", "C1", "13"},
             Tpls={"TableNormal", "TableGrid", "TableList", "TableColorful1", "TableColorful2", "TableColorful3", "TableColumns1",
                   "TableColumns2", "TableColumns3", "TableRows1", "TableRows2", "TableRows3", "TablePlain1", "TablePlain2", "TablePlain3"},
             TblIds={"ab", "a1", "TS1", "FT1"}, ListTypes={"bullet", "number", "decimal", "lowerLetter", "upperLetter", "lowerRoman", "upperRoman"},
             Shapes={"plain", "lists", "listslow", "toc", "tbl", "nostyles"}, Kinds={"quote", "code", "heads", "all"},
-            ViasC={"AddStyle", "CreateCustomStyle", "CreateQuickStyle"}, HowsC={"mutate", "replace"}, FreshC={True, False})
+            ViasC={"AddStyle", "CreateCustomStyle", "CreateQuickStyle"}, HowsC={"mutate", "replace"}, FreshC={True, False},
+            OnIds={"Normal", "Heading1", "Quote", "C1", "Q1", "Zz9"}, NoteKinds={"fn", "en"}, Looks={"styles", "body", "parts"})
 
 
 def consts(ops, args, depth=0, maxsteps=0):
